@@ -639,6 +639,20 @@ func genC09Group(r *Rng) *World {
 	for i := 0; i < n; i++ {
 		op := Op{T: r.Intn(3)}
 		switch k := r.Intn(100); {
+		case k < 8 && len(routers) > 0:
+			// a second router object with a taken name: refused now, added for real after the first one is removed
+			name := pick(r, routers)
+			hid++
+			w.Ops = append(w.Ops, Op{T: r.Intn(3), K: "gadd-dup", Name: name, HID: hid})
+			if r.Pct(70) {
+				if r.Pct(50) {
+					mwN++
+					w.Ops = append(w.Ops, Op{T: r.Intn(3), K: "guse", MW: []string{fmt.Sprintf("G%d", mwN)}})
+				}
+				w.Ops = append(w.Ops, Op{T: r.Intn(3), K: "gremove", Name: name})
+				w.Ops = append(w.Ops, Op{T: r.Intn(3), K: "greadd", Name: name})
+			}
+			continue
 		case k < 20 && len(routers) < 4:
 			op.K = pick(r, []string{"gnew", "gadd"})
 			op.Name = fmt.Sprintf("rt%d", len(routers)+1)
@@ -683,6 +697,7 @@ func execC09Group(w *World, st *Stats) (*Violation, RunInfo) {
 		use []string
 	}
 	rts := map[string]*rt{}
+	pending := map[string]*rt{} // router objects whose Add was refused because the name was taken
 	var order []string
 	var guse []string
 	mutated := false
@@ -704,6 +719,34 @@ func execC09Group(w *World, st *Stats) (*Violation, RunInfo) {
 				x.use = append(x.use, guse...)
 				rts[op.Name] = x
 				order = append(order, op.Name)
+			case "gadd-dup":
+				x := &rt{m: NewModel(RouterOpts{})}
+				x.r = NewSimRouter(env, RouterOpts{Name: op.Name})
+				x.r.Handle("/dup", env.Handler(op.HID, nil), nil, "GET")
+				x.m.Handle("/dup", op.HID, nil, []string{"GET"})
+				pending[op.Name] = x
+				g.Add(mux.NewHosts(false, op.Name+".example.com"), x.r) // must panic: the name is taken
+			case "gremove":
+				g.Remove(op.Name)
+				if rts[op.Name] != nil {
+					delete(rts, op.Name)
+					for k, n := range order {
+						if n == op.Name {
+							order = append(order[:k], order[k+1:]...)
+							break
+						}
+					}
+				}
+			case "greadd":
+				x := pending[op.Name]
+				if x == nil || rts[op.Name] != nil {
+					return
+				}
+				g.Add(mux.NewHosts(false, op.Name+".example.com"), x.r)
+				x.use = append([]string{}, guse...) // the group's middlewares count from the Add that succeeded
+				rts[op.Name] = x
+				order = append(order, op.Name)
+				delete(pending, op.Name)
 			case "guse":
 				g.Use(env.MWs(op.MW...)...)
 				guse = append(guse, op.MW...)
@@ -745,7 +788,7 @@ func execC09Group(w *World, st *Stats) (*Violation, RunInfo) {
 			if strings.Join(o.Trace, ",") != strings.Join(want, ",") {
 				return mk("request-trace", "group-order:"+wantKind.String(), fmt.Sprintf("%s ran middlewares %v, documented order %v", q, o.Trace, want))
 			}
-			if d := checkFactory(env, o.HID, facMethod, pattern, router, want, o.Kind == KGroup404 || o.Kind == K404); d != "" {
+			if d := checkFactory(env, o.HID, facMethod, pattern, router, want, o.Kind == KGroup404); d != "" {
 				return mk("factory-calls", "group-factory:"+wantKind.String(), fmt.Sprintf("%s: %s", q, d))
 			}
 			return nil
